@@ -16,7 +16,7 @@ import (
 	"github.com/flamego/flamego/verifharness/internal/rt"
 )
 
-const rule = "case = a valid route set (1..8 routes over a shared segment pool, random order, 1..2 methods) plus 1..12 requests, 80% built from an instance of a registered route and mutated, one in four also carrying an over-escaped URL.RawPath that decodes to the same path; " +
+const rule = "case = a valid route set (1..8 routes over a shared segment pool, random order, 1..2 methods) plus 1..12 requests (the root route and the root path included), 80% built from an instance of a registered route and mutated, one in four also carrying an over-escaped URL.RawPath that decodes to the same path; " +
 	"each request is matched by route.Tree.Match and served through Flame.ServeHTTP and compared with the reference matcher (flat route list, documented priority) and with a priority-free brute force for the iff. " +
 	"non-trivial = a case with a request admitted by >=2 route forms, or decided after the reference matcher abandoned an admitting alternative, or with a mid-route match-all spanning >=2 segments, or won by the short form of an optional route; distinct by case text. " +
 	"metamorphic part (no reference matcher): adding an unrelated route, swapping adjacent registrations of different rank, registering routes for another method and extra leading slashes change no outcome. small-scope part: every ordered set of <=3 compatible routes from a fixed pool of 12 x every path of <=4 segments over 5 values"
@@ -25,6 +25,7 @@ var assumptions = []string{
 	"route sets contain only registrations the registration model classifies MUST_ACCEPT (C08 decides registration itself)",
 	"request paths contain no newline (the documentation does not say whether an in-segment {name} admits it)",
 	"reference matcher internal/model/match.go is written from the statement of C01",
+	"'the winner is decided segment by segment; among equally ranked alternatives the earlier-registered wins': the alternatives at one position are the distinct segment texts, and a text counts as registered when the first route that goes through it was - also when that route itself does not admit the request (a reading that ranks whole routes instead differs on about one request in ten thousand)",
 }
 
 func TestMain(m *testing.M) { evid.Main(m, "C01", rule, assumptions) }
@@ -220,21 +221,25 @@ type MetaCase struct {
 	Other []rt.Reg `json:"other"` // M3: routes registered for POST
 }
 
+// outcomes serves the requests through a Flame instance built from the
+// registrations (the per-method separation that M3 is about lives in the
+// router, not in the trees) and names the route that answered each of them.
 func outcomes(regs []rt.Reg, reqs []rt.Req) ([]string, bool) {
-	trees, _, _, err := rt.Trees(regs)
-	if err != nil {
+	app, _, perr := rt.NewApp(regs)
+	if perr != nil {
 		return nil, false
 	}
 	var out []string
 	for _, q := range reqs {
-		tree := trees[q.M]
-		o := "not-found"
-		if tree != nil {
-			if leaf, _, ok := tree.Match(q.P, nil); ok {
-				o = leaf.Route()
-			}
+		hit := app.Serve(q)
+		switch {
+		case hit.Panic != nil:
+			out = append(out, fmt.Sprintf("panic: %v", hit.Panic))
+		case hit.Handler >= 0:
+			out = append(out, rt.Deriv(regs[hit.Handler].R).Canon())
+		default:
+			out = append(out, "not-found")
 		}
-		out = append(out, o)
 	}
 	return out, true
 }
@@ -379,7 +384,7 @@ func revalidate(regs []rt.Reg) []rt.Reg {
 // ---- small-scope exhaustive part ---------------------------------------------
 
 var smallPool = []string{
-	"/a", "/a/b", "/{x}", "/{x}/b", "/{n: /[0-9]+/}", "/{n: /[0-9]+/}/b",
+	"/", "/a", "/a/b", "/{x}", "/{x}/b", "/{n: /[0-9]+/}", "/{n: /[0-9]+/}/b",
 	"/{p: **}", "/{p: **}/b", "/a/{q: **, capture: 2}", "/a/?b", "/{x}/?{y}", "/{w: /[a-z]+/}/{v}",
 }
 
